@@ -18,7 +18,7 @@ T_QUICK, T_THOROUGH = 75, 1500
 FLOORS = {"types_compiled": 300, "calls_compared": 10000, "kind:get": 2000, "kind:getp": 5000, "kind:len": 1000,
           "kind:typeid": 200, "kind:member": 100, "nonzero_offset_objects": 300, "standalone_runs": 30,
           "seen:ar2doD": 3, "seen:ar1dD": 30, "seen:ref": 50, "paths_through_refs": 500,
-          "dynitem_array_not_outermost": 100}
+          "dynitem_array_not_outermost": 100, "growths_between_calls": 100}
 RULE = ("random type AST rooted at struct/array/unionref (depth<=3, all item kinds incl. arrays of dynamic items nested "
         "in structs and arrays, refs forwards/backwards) x value; object never at offset 0, neighbours around; every "
         "generated accessor of every access path (get, getp[n], len[n], typeid, member) called through the real "
@@ -91,6 +91,9 @@ def run_case(w, rng):
             if cl.name not in kernels:
                 viol("accessor-missing", f"{cl.name} not generated for {cl.label}")
                 continue
+            if rng.random() < 0.02:
+                # storage replaced between two kernel calls: offsets stay, addresses do not
+                w.count("growths_between_calls", env.force_growth())
             try:
                 got = _ip.call(h, cl)
             except Exception as e:
